@@ -177,6 +177,11 @@ def latchInit (p : Parser) (stateCode : Nat) : PM (Option Bool) := do
   requiredNewline
   pure init
 
+/-- The optional reset part of a latch line:
+`if required_newline_or_space()? { … initialization literal … } else { Some(false) }`. -/
+def latchReset (p : Parser) (stateCode : Nat) : PM (Option Bool) := do
+  if ← requiredNewlineOrSpace then latchInit p stateCode else pure (some false)
+
 /-- `ParseLatches::next_latch` (ASCII). -/
 def nextLatchAscii (s : St) : PM (Option Latch × St) :=
   match s.left with
@@ -187,7 +192,7 @@ def nextLatchAscii (s : St) : PM (Option Latch × St) :=
     let state := s.p.lit.fromCode stateCode
     requiredSpace
     let next := s.p.lit.fromCode (← lit s.p.maxLit false)
-    let init ← if ← requiredNewlineOrSpace then latchInit s.p stateCode else pure (some false)
+    let init ← latchReset s.p stateCode
     pure (some { state, next, init }, s)
 
 /-- `ParseLatches::next_latch` (binary); `code += 2` wraps (F4). -/
@@ -197,7 +202,7 @@ def nextLatchBin (s : St) : PM (Option OLatch × St) :=
   | left + 1 => do
     let s := { s with left }
     let next := s.p.lit.fromCode (← lit s.p.maxLit false)
-    let init ← if ← requiredNewlineOrSpace then latchInit s.p s.p.code else pure (some false)
+    let init ← latchReset s.p s.p.code
     let s := { s with p := { s.p with code := (s.p.code + 2) % 2 ^ 64 } }
     pure (some { next, init }, s)
 
@@ -261,12 +266,12 @@ def finish {α : Type} (next : St → PM (Option α × St)) (s : St) : PM St := 
 
 /-- `ParseInputs::latches` / (binary) `Parser::latches`. -/
 def toLatches (s : St) : PM St := do
-  let s ← if s.p.bin then pure s else finish nextInput s
+  let s ← (if s.p.bin then pure s else finish nextInput s)
   pure { s with left := s.p.header.latchCount }
 
 /-- `ParseLatches::outputs`. -/
 def toOutputs (s : St) : PM St := do
-  let s ← if s.p.bin then finish nextLatchBin s else finish nextLatchAscii s
+  let s ← (if s.p.bin then finish nextLatchBin s else finish nextLatchAscii s)
   pure { s with left := s.p.header.outputCount }
 
 /-- `ParseOutputs::bad_state_properties`. -/
@@ -301,7 +306,7 @@ def toAndGates (s : St) : PM St := do
 
 /-- `ParseAndGates::symbols`. -/
 def toSymbols (s : St) : PM Parser := do
-  let s ← if s.p.bin then finish nextAndGateBin s else finish nextAndGateAscii s
+  let s ← (if s.p.bin then finish nextAndGateBin s else finish nextAndGateAscii s)
   pure s.p
 
 /-- One alternative of `next_symbol`:
